@@ -368,7 +368,14 @@ impl Config {
 // -------------------------------------------------------------- real objects
 
 pub fn collection() -> Collection<TW> {
-    let re = |p: &str| Regex::new(p).unwrap();
+    // (compiled once per thread: compiling dominates the cost of an execution otherwise)
+    thread_local! {
+        static COMPILED: std::cell::RefCell<std::collections::HashMap<&'static str, Regex>> =
+            std::cell::RefCell::new(std::collections::HashMap::new());
+    }
+    let re = |p: &'static str| {
+        COMPILED.with(|c| c.borrow_mut().entry(p).or_insert_with(|| Regex::new(p).unwrap()).clone())
+    };
     let loc = |line| Some(cucumber::step::Location { path: "harness.rs", line, column: 1 });
     let (main, wide, amb) =
         (r"^(step|bg|rbg) (\S+) (\d+)$", r"^ambig-\S+ .*$", r"^ambig-(step|bg|rbg) (\S+) (\d+)$");
@@ -592,5 +599,11 @@ pub fn custom_which_fn() -> runner::basic::WhichScenarioFn {
 pub fn build_stream(cfg: &Config) -> EvStream {
     let input = parser_stream(cfg);
     let cli = runner_cli(cfg);
-    with_runner!(cfg, |r| r.run(input, cli))
+    // every other configuration runs a clone of the runner it built (users keep a template
+    // around and run clones of it)
+    if cfg.name.len() % 2 == 0 {
+        with_runner!(cfg, |r| r.clone().run(input, cli))
+    } else {
+        with_runner!(cfg, |r| r.run(input, cli))
+    }
 }
